@@ -5,7 +5,7 @@ CONSTANTS
   MaxTail = 4
   ElemTail = 1
   NestTail = 3
-  DeepTail = 2
+  DeepTail = 3
   Nums = {1}
   MaxOperands = 1
   WithNeg = FALSE
